@@ -1,17 +1,29 @@
 """Contracts for dimarray/core/indexing.py"""
 from dverif.contract_base import Contract
 from .common import (in_slice, slice_bounds, strictly_increasing, strictly_decreasing, unique,
-                     first_occurrence, absent)
+                     first_occurrence, absent, assume_order, order_of)
 
 STEPS = (None, 1, 2, 3, -1, -2)
 
 
+def _step(case):
+    return 1 if case["step"] is None else case["step"]
+
+
 class LocateSlice(Contract):
-    """locate_slice on a strictly monotonic numeric axis: the returned (istart, istop) with the
-    caller's step selects exactly the bounding box [start, stop] in travel order (C02)."""
+    """locate_slice(values, start, stop, step) -> (istart, istop)  [C02]
+
+    mode bbox   (numeric, strictly monotonic axis): slice(istart, istop, step) visits exactly the
+                positions whose label lies in the closed box [start, stop] read in travel order, every
+                |step|-th starting from the first one met; no exception for any length (0 included).
+    mode strict (string labels, or numeric labels that are not monotonic; labels unique): both bounds
+                must be labels (IndexError otherwise); the slice runs from start's position to stop's,
+                inclusive, in travel order; open bounds extend to the end; never wraps around.
+    """
     target = "dimarray.core.indexing:locate_slice"
     props = ("C02",)
-    inlined = ("is_numeric", "is_monotonic_equal", "is_increasing_equal", "is_decreasing_equal", "_is_ordered")
+    inlined = ("is_numeric", "is_monotonic_equal", "is_increasing_equal", "is_decreasing_equal", "_is_ordered",
+               "_locate_slice_strict (strict mode: its callee locate_one is used through its contract)")
     bound_names = ("values.n",)
 
     def cases(self, tier):
@@ -22,29 +34,73 @@ class LocateSlice(Contract):
                         for has_stop in (True, False):
                             if kind == "i" and tier == "quick" and step in (3, -2):
                                 continue
-                            yield {"name": "%s-%s-step%s-%s%s" % (kind, direction, step, "a" if has_start else "_", "b" if has_stop else "_"),
-                                   "kind": kind, "dir": direction, "step": step, "has_start": has_start, "has_stop": has_stop}
+                            yield {"name": "bbox-%s-%s-step%s-%s%s" % (kind, direction, step, "a" if has_start else "_", "b" if has_stop else "_"),
+                                   "mode": "bbox", "kind": kind, "dir": direction, "step": step,
+                                   "has_start": has_start, "has_stop": has_stop}
+        for kind in ("O", "f"):
+            for step in STEPS:
+                for has_start in (True, False):
+                    for has_stop in (True, False):
+                        if tier == "quick" and step in (3, -2):
+                            continue
+                        yield {"name": "strict-%s-step%s-%s%s" % (kind, step, "a" if has_start else "_", "b" if has_stop else "_"),
+                               "mode": "strict", "kind": kind, "dir": "shuffled", "step": step,
+                               "has_start": has_start, "has_stop": has_stop}
 
+    # -- inputs ------------------------------------------------------------
     def setup(self, S, case):
         values = S.array1d("values", case["kind"])
-        if case["dir"] == "dec":
-            S.assume(S.n(values) >= 2, "a decreasing axis has at least two labels (shorter axes count as increasing)")
-        if case["dir"] == "inc":
-            S.assume(strictly_increasing(S, values), "labels strictly increasing")
+        n = S.n(values)
+        if case["mode"] == "bbox":
+            assume_order(S, values, case["dir"])
+            start = S.real("start") if case["has_start"] else None
+            stop = S.real("stop") if case["has_stop"] else None
         else:
-            S.assume(strictly_decreasing(S, values), "labels strictly decreasing")
-        start = S.real("start") if case["has_start"] else None
-        stop = S.real("stop") if case["has_stop"] else None
-        return {"values": values, "start": start, "stop": stop, "step": case["step"],
-                "args": (values, start, stop, case["step"])}
+            assume_order(S, values, "unique")
+            if case["kind"] != "O":
+                # numeric but not monotonic: witnesses of one ascent and one descent
+                u, d = S.int("ascent_at"), S.int("descent_at")
+                S.assume(S.land(0 <= u, u + 1 < n, S.implies(S.land(0 <= u, u + 1 < n), lambda: S.at(values, u) < S.at(values, u + 1))), "some ascent")
+                S.assume(S.land(0 <= d, d + 1 < n, S.implies(S.land(0 <= d, d + 1 < n), lambda: S.at(values, d) > S.at(values, d + 1))), "some descent")
+            start = S.label("start", case["kind"]) if case["has_start"] else None
+            stop = S.label("stop", case["kind"]) if case["has_stop"] else None
+        env = {"values": values, "start": start, "stop": stop, "step": case["step"],
+               "args": (values, start, stop, case["step"])}
+        return env
 
-    def raises(self, S, case, env):
-        return {}       # numeric bounds on a numeric monotonic axis: no exception for any length (incl. 0)
+    def requires(self, S, case, env):
+        v = env["values"]
+        if case["mode"] == "bbox":
+            if case["dir"] == "inc":
+                yield "increasing", strictly_increasing(S, v)
+            else:
+                yield "decreasing", S.land(strictly_decreasing(S, v), S.n(v) >= 2)
+        else:
+            yield "unique", unique(S, v)
 
+    def bind(self, values, start, stop, step, issorted=False):
+        if issorted:
+            raise NotImplementedError("issorted=True")
+        order = order_of(values)
+        kind = values.dtype.kind
+        if step not in STEPS:
+            raise NotImplementedError("step %r" % (step,))
+        if kind in "fiu" and order in ("inc", "dec"):
+            case = {"mode": "bbox", "kind": kind, "dir": order}
+        elif order == "unique" and kind == "O":
+            case = {"mode": "strict", "kind": kind, "dir": "shuffled"}
+        else:
+            raise NotImplementedError("axis of kind %s with order tag %r" % (kind, order))
+        case.update(step=step, has_start=start is not None, has_stop=stop is not None, name="bound")
+        return case, {"values": values, "start": start, "stop": stop, "step": step}
+
+    def fresh_result(self, S, case, env):
+        return S.fresh_int(env["_fresh"] + ".istart"), S.fresh_int(env["_fresh"] + ".istop")
+
+    # -- spec ----------------------------------------------------------------
     def _inbox(self, S, case, env, p):
         L = S.at(env["values"], p)
-        step = 1 if case["step"] is None else case["step"]
-        sgn = (1 if case["dir"] == "inc" else -1) * (1 if step > 0 else -1)
+        sgn = (1 if case["dir"] == "inc" else -1) * (1 if _step(case) > 0 else -1)
         cs = []
         if env["start"] is not None:
             cs.append(env["start"] <= L if sgn > 0 else env["start"] >= L)
@@ -52,27 +108,290 @@ class LocateSlice(Contract):
             cs.append(L <= env["stop"] if sgn > 0 else L >= env["stop"])
         return S.land(*cs)
 
+    def raises(self, S, case, env):
+        if case["mode"] == "bbox":
+            return {}       # numeric bounds on a numeric monotonic axis: no exception for any length (incl. 0)
+        v = env["values"]
+        conds = []
+        if env["start"] is not None:
+            conds.append(absent(S, v, env["start"]))
+        if env["stop"] is not None:
+            conds.append(absent(S, v, env["stop"]))
+        return {IndexError: S.lor(*conds)}
+
     def post(self, S, case, env, result):
-        n = S.n(env["values"])
+        v = env["values"]
+        n = S.n(v)
         istart, istop = result
-        step = 1 if case["step"] is None else case["step"]
+        step = _step(case)
         tau = 1 if step > 0 else -1
         lo, hi = slice_bounds(S, n, istart, istop, step)
         ins = lambda p: in_slice(S, n, istart, istop, step, p)
-        box = lambda p: self._inbox(S, case, env, p)
-        yield "selected-inside-box", S.forall(0, n, lambda p: S.implies(ins(p), box(p)))
-        yield "starts-at-first-in-travel-order", S.forall(0, n, lambda q: S.implies(
-            box(q), S.land(0 <= lo, lo < n, box(lo), tau * lo <= tau * q)))
-        yield "every-step-th-inside-box-selected", S.forall(0, n, lambda p: S.implies(
-            S.land(box(p), tau * (p - lo) >= 0, S.mod(tau * (p - lo), abs(step)) == 0), ins(p)))
+        if case["mode"] == "bbox":
+            box = lambda p: self._inbox(S, case, env, p)
+            # ghost hints (proof steps, dropped when not provable): the visited *range* lies inside the box,
+            # and the box lies inside the visited range -- the stride is then pure arithmetic
+            rng = lambda p: S.land(tau * lo <= tau * p, tau * p < tau * hi)
+            h1 = lambda: S.forall(0, n, lambda p: S.implies(rng(p), lambda: box(p)))
+            h2 = lambda: S.forall(0, n, lambda p: S.implies(box(p), lambda: rng(p)))
+            yield "selected-inside-box", S.forall(0, n, lambda p: S.implies(ins(p), lambda: box(p))), h1
+            yield "starts-at-first-in-travel-order", S.forall(0, n, lambda q: S.implies(
+                box(q), lambda: S.land(0 <= lo, lo < n, S.implies(S.land(0 <= lo, lo < n), lambda: box(lo)), tau * lo <= tau * q)))
+            yield "every-step-th-inside-box-selected", S.forall(0, n, lambda p: S.implies(
+                S.land(box(p), tau * (p - lo) >= 0, S.mod(tau * (p - lo), abs(step)) == 0), lambda: ins(p))), h2
+            return
+        # strict: positions of the two bounds (labels are unique, so "the" position)
+        def spec(p):
+            cs = [S.mod(tau * (p - lo), abs(step)) == 0]
+            if env["start"] is not None:
+                cs.append(S.exists(0, n, lambda i: S.land(S.at(v, i) == env["start"], tau * i <= tau * p)))
+            if env["stop"] is not None:
+                cs.append(S.exists(0, n, lambda i: S.land(S.at(v, i) == env["stop"], tau * p <= tau * i)))
+            return S.land(*cs)
+        # the first visited position is start's position (or the end of the axis for an open start)
+        if env["start"] is not None:
+            yield "starts-at-start-label", S.forall(0, n, lambda p: S.implies(ins(p), lambda: S.land(
+                0 <= lo, lo < n, S.implies(S.land(0 <= lo, lo < n), lambda: S.at(v, lo) == env["start"]))))
+        else:
+            yield "open-start-begins-at-the-end-of-the-axis", S.forall(0, n, lambda p: S.implies(
+                ins(p), lo == (0 if tau > 0 else n - 1)))
+        yield "selected-iff-between-the-bounds", S.forall(0, n, lambda p: S.iff(ins(p), S.land(tau * (p - lo) >= 0, spec(p))))
 
     def canaries(self, S, case, env, result):
         n = S.n(env["values"])
         istart, istop = result
-        step = 1 if case["step"] is None else case["step"]
+        step = _step(case)
         # false: "the stop bound is exclusive" -- a label equal to `stop` is never selected
         if env["stop"] is not None:
             yield "stop-exclusive", S.forall(0, n, lambda p: S.implies(
-                in_slice(S, n, istart, istop, step, p), S.at(env["values"], p) != env["stop"]))
+                in_slice(S, n, istart, istop, step, p), lambda: S.at(env["values"], p) != env["stop"]))
         else:
             yield "never-selects-anything", S.forall(0, n, lambda p: S.lnot(in_slice(S, n, istart, istop, step, p)))
+
+
+class LocateOne(Contract):
+    """locate_one(values, val, tol=None): exact search returns the least position holding val
+    (IndexError iff absent); with tol the first position of the nearest label, IndexError iff that
+    label is farther than tol.  [C01]"""
+    target = "dimarray.core.indexing:locate_one"
+    props = ("C01", "C02")
+    bound_names = ("values.n",)
+
+    def cases(self, tier):
+        for kind in ("f", "i", "O"):
+            yield {"name": "exact-%s" % kind, "kind": kind, "tol": False}
+        for kind in ("f", "i"):
+            yield {"name": "tol-%s" % kind, "kind": kind, "tol": True}
+        yield {"name": "tol-on-strings", "kind": "O", "tol": True}
+
+    def setup(self, S, case):
+        values = S.array1d("values", case["kind"])
+        val = S.label("val", "f" if case["kind"] == "i" else case["kind"])
+        tol = S.real("tol") if case["tol"] else None
+        return {"values": values, "val": val, "tol": tol, "args": (values, val), "kwargs": {"tol": tol}}
+
+    def bind(self, values, val, issorted=False, tol=None, side="left"):
+        if issorted:
+            raise NotImplementedError("issorted=True")
+        kind = values.dtype.kind
+        return ({"name": "bound", "kind": kind, "tol": tol is not None},
+                {"values": values, "val": val, "tol": tol})
+
+    def fresh_result(self, S, case, env):
+        return S.fresh_int(env["_fresh"] + ".match")
+
+    def _dist(self, S, env, i):
+        d = S.at(env["values"], i) - env["val"]
+        return S.ite(d >= 0, d, -d)
+
+    def raises(self, S, case, env):
+        v, x, n = env["values"], env["val"], S.n(env["values"])
+        if not case["tol"]:
+            return {IndexError: absent(S, v, x)}
+        if case["kind"] == "O":
+            return {TypeError: True}
+        # nothing within tolerance  <=>  every label is farther than tol  (an empty axis has no nearest label)
+        # (an empty axis has no nearest label: IndexError or ValueError are both accepted there)
+        return {IndexError: S.forall(0, n, lambda i: self._dist(S, env, i) > env["tol"]),
+                ValueError: n == 0}
+
+    def post(self, S, case, env, result):
+        v, x, n = env["values"], env["val"], S.n(env["values"])
+        m = result
+        if not case["tol"]:
+            yield "least-position-holding-val", first_occurrence(S, v, x, m)
+            return
+        yield "in-bounds", S.land(0 <= m, m < n)
+        yield "nearest", S.forall(0, n, lambda i: self._dist(S, env, m) <= self._dist(S, env, i))
+        yield "first-among-nearest", S.forall(0, m, lambda i: self._dist(S, env, m) < self._dist(S, env, i))
+        yield "within-tolerance", self._dist(S, env, m) <= env["tol"]
+
+    def canaries(self, S, case, env, result):
+        if not case["tol"]:
+            yield "always-position-zero", result == 0
+        else:
+            yield "always-exact", S.at(env["values"], result) == env["val"]
+
+
+class LocateMany(Contract):
+    """locate_many(values, val) (unsorted search through argsort + searchsorted + clip):
+    every returned position is in bounds and holds the requested label whenever that label is on the
+    axis; IndexError iff the axis is empty and something is requested.  [C01, C07]"""
+    target = "dimarray.core.indexing:locate_many"
+    props = ("C01", "C07")
+    bound_names = ("values.n", "val.n")
+
+    def cases(self, tier):
+        for kind in ("f", "i", "O"):
+            yield {"name": "unsorted-%s" % kind, "kind": kind}
+
+    def setup(self, S, case):
+        values = S.array1d("values", case["kind"])
+        val = S.array1d("val", case["kind"])
+        return {"values": values, "val": val, "args": (values, val)}
+
+    def bind(self, values, val, issorted=False, side="left"):
+        if issorted or side != "left":
+            raise NotImplementedError("issorted / side")
+        if isinstance(val, (list, tuple)):
+            from dverif import symnp
+            val = symnp.asarray(val)
+        if not hasattr(val, "dtype") or val.ndim != 1:
+            raise NotImplementedError("needle is not a 1-D array")
+        return {"name": "bound", "kind": values.dtype.kind}, {"values": values, "val": val}
+
+    def fresh_result(self, S, case, env):
+        return S.fresh_array1d(env["_fresh"] + ".matches", "I", S.n(env["val"]))
+
+    def raises(self, S, case, env):
+        return {IndexError: S.land(S.n(env["values"]) == 0, S.n(env["val"]) > 0)}
+
+    def post(self, S, case, env, result):
+        v, q = env["values"], env["val"]
+        n, m = S.n(v), S.n(q)
+        yield "same-length", S.n(result) == m
+        yield "in-bounds", S.forall(0, m, lambda j: S.land(0 <= S.at(result, j), S.at(result, j) < n))
+        yield "present-labels-are-found", S.forall(0, m, lambda j: S.forall(0, n, lambda i: S.implies(
+            S.at(v, i) == S.at(q, j), lambda: S.at(v, S.at(result, j)) == S.at(q, j))))
+
+    def canaries(self, S, case, env, result):
+        v, q = env["values"], env["val"]
+        yield "everything-is-found", S.forall(0, S.n(q), lambda j: S.at(v, S.at(result, j)) == S.at(q, j))
+
+
+class ExpandedIndexer(Contract):
+    """expanded_indexer(key, ndim): a tuple of length ndim; non-Ellipsis entries in order, the first
+    Ellipsis expanded to the missing full slices, padding with full slices; IndexError iff too many.  [C01]"""
+    target = "dimarray.core.indexing:expanded_indexer"
+    props = ("C01",)
+
+    def cases(self, tier):
+        import itertools
+        toks = ("x", "E")
+        for ndim in range(0, 5):
+            for ln in range(0, 6):
+                for combo in itertools.product(toks, repeat=ln):
+                    if combo.count("E") > 2:
+                        continue
+                    yield {"name": "ndim%d-%s" % (ndim, "".join(combo) or "empty"), "ndim": ndim, "key": list(combo)}
+            yield {"name": "ndim%d-nontuple" % ndim, "ndim": ndim, "key": None}
+
+    def setup(self, S, case):
+        if case["key"] is None:
+            marker = _NonTuple(0)
+            return {"items": [marker], "key": marker, "args": (marker, case["ndim"])}
+        items = [_NonTuple(i) for i, t in enumerate(case["key"]) if t == "x"]
+        it = iter(items)
+        key = tuple(Ellipsis if t == "E" else next(it) for t in case["key"])
+        return {"items": items, "key": key, "args": (key, case["ndim"])}
+
+    def _too_many(self, case):
+        if case["key"] is None:
+            return 1 > case["ndim"]
+        k = case["key"]
+        n_items = k.count("x")
+        if "E" in k:
+            # first ellipsis expands to ndim + 1 - len(key) (if positive), later ones to one slice each
+            total = n_items + max(case["ndim"] + 1 - len(k), 0) + (k.count("E") - 1)
+        else:
+            total = n_items
+        return total > case["ndim"]
+
+    def raises(self, S, case, env):
+        return {IndexError: self._too_many(case)}
+
+    def post(self, S, case, env, result):
+        full = slice(None)
+        yield "is-tuple-of-length-ndim", isinstance(result, tuple) and len(result) == case["ndim"]
+        non_full = [r for r in result if not (isinstance(r, slice) and r == full)]
+        if case["key"] is None:
+            yield "items-kept-in-order", len(non_full) == 1 and non_full[0] is env["args"][0]
+        else:
+            yield "items-kept-in-order", len(non_full) == len(env["items"]) and all(a is b for a, b in zip(non_full, env["items"]))
+            k = case["key"]
+            if "E" in k:
+                lead = k.index("E")
+                yield "items-before-ellipsis-stay-in-front", all(result[i] is env["items"][i] for i in range(lead))
+                trail = len(k) - 1 - max(i for i, t in enumerate(k) if t == "E")
+                yield "items-after-last-ellipsis-stay-at-the-end", all(
+                    result[len(result) - 1 - j] is env["items"][len(env["items"]) - 1 - j] for j in range(trail)) if k.count("E") == 1 else True
+            else:
+                yield "items-lead", all(result[i] is env["items"][i] for i in range(len(env["items"])))
+
+    def canaries(self, S, case, env, result):
+        yield "one-entry-too-many", len(result) == case["ndim"] + 1
+
+
+class _NonTuple(object):
+    """an opaque index item"""
+    def __init__(self, i):
+        self.i = i
+    def __repr__(self):
+        return "item%d" % self.i
+
+
+KINDS = "biufcOUSMm"
+
+
+class MaybeCastType(Contract):
+    """_maybe_cast_type(values, newval): the returned array holds the same elements and has a dtype kind
+    that can hold `newval` losslessly per the documented table (i<-f gives f, S<-U gives U, anything
+    else that does not fit gives O); unchanged kinds return the very same array.  [C03, C07, C17]"""
+    target = "dimarray.core.indexing:_maybe_cast_type"
+    props = ("C03",)
+    bound_names = ("values.n",)
+
+    def cases(self, tier):
+        for a in "bifO":
+            for b in "bifO":
+                yield {"name": "%s<-%s" % (a, b), "old": a, "new": b}
+
+    def setup(self, S, case):
+        kind = {"b": "b", "i": "I", "f": "f", "O": "O"}[case["old"]]
+        values = S.array1d("values", kind)
+        newval = {"b": lambda: S.bool("newval"), "i": lambda: S.int("newval"), "f": lambda: S.real("newval"),
+                  "O": lambda: S.strlabel("newval")}[case["new"]]()
+        return {"values": values, "newval": newval, "args": (values, newval)}
+
+    @staticmethod
+    def expected(old, new):
+        if old == new or old == "O":
+            return old
+        if old == "f" and new == "i":
+            return "f"
+        if old == "i" and new == "f":
+            return "f"
+        return "O"
+
+    def post(self, S, case, env, result):
+        exp = self.expected(case["old"], case["new"])
+        yield "kind-per-table", S.kind(result) == exp
+        yield "same-length", S.n(result) == S.n(env["values"])
+        yield "elements-preserved", S.forall(0, S.n(env["values"]), lambda i: S.at(result, i) == S.at(env["values"], i))
+        if exp == case["old"]:
+            yield "unchanged-kind-returns-same-array", result is env["values"]
+        else:
+            yield "cast-is-a-fresh-array", S.lnot(S.same_buffer(result, env["values"]))
+
+    def canaries(self, S, case, env, result):
+        yield "kind-differs-from-table", S.kind(result) != self.expected(case["old"], case["new"])
